@@ -22,6 +22,16 @@ def date_now(offset=0):
     return time.strftime("%a, %d %b %Y %H:%M:%S GMT", time.gmtime(time.time() + offset))
 
 
+def _child_setup():
+    """own process group + die with the harness (no orphaned squids when a check is killed)"""
+    os.setsid()
+    try:
+        import ctypes
+        ctypes.CDLL("libc.so.6", use_errno=True).prctl(1, signal.SIGKILL)   # PR_SET_PDEATHSIG
+    except Exception:
+        pass
+
+
 class Squid:
     """squid -N from the stage with a generated config."""
 
@@ -83,7 +93,8 @@ dns_v4_first on
         else:
             args.insert(1, "--foreground")
         self.errlog = open(os.path.join(self.dir, "stderr.log"), "ab")
-        self.proc = subprocess.Popen(args, env=self.env, stdout=self.errlog, stderr=self.errlog, preexec_fn=os.setsid)
+        self.proc = subprocess.Popen(args, env=self.env, stdout=self.errlog, stderr=self.errlog, preexec_fn=_child_setup)
+        self._watchdog(self.proc.pid)
         t0 = time.time()
         while time.time() - t0 < wait * VERIF_SLOW:
             if self.proc.poll() is not None:
@@ -93,6 +104,31 @@ dns_v4_first on
                 return self
             time.sleep(0.02)
         raise RuntimeError("squid did not start: " + self.cache_log()[-1500:])
+
+    @staticmethod
+    def _watchdog(squid_pid):
+        """a tiny forked child that kills squid's process group when the harness process disappears (squid drops privileges, which
+        clears PR_SET_PDEATHSIG, so this is the only reliable way not to leak instances when a check is killed)"""
+        parent = os.getpid()
+        pid = os.fork()
+        if pid:
+            return
+        try:
+            os.setsid()
+            while True:
+                time.sleep(1.0)
+                try:
+                    os.kill(squid_pid, 0)
+                except OSError:
+                    os._exit(0)
+                if os.getppid() != parent:
+                    try:
+                        os.killpg(squid_pid, signal.SIGKILL)
+                    except OSError:
+                        pass
+                    os._exit(0)
+        finally:
+            os._exit(0)
 
     def alive(self):
         return self.proc is not None and self.proc.poll() is None
